@@ -125,7 +125,7 @@ PROBES = [
     "apply_on_unfiltered", "apply_on_prefiltered", "apply_on_prejoined_used_rel",
     "apply_on_prejoined_other_rel", "apply_on_ordered", "apply_on_annotated",
     "apply_on_shorthand_result", "apply_on_manager", "apply_with_navigation",
-    "apply_with_lambda", "apply_with_function", "older_query_rerun_after_later_apply",
+    "apply_with_lambda", "apply_with_two_step_lambda_owner", "apply_with_function", "older_query_rerun_after_later_apply",
     "apply_after_apply_fail_same_base", "apply_fail_after_joins_recorded",
     "cache_hit", "cache_miss", "cache_eviction", "same_shape_different_literals",
     "style_sa_select", "style_sa_legacy", "style_sa_core", "style_dj_qs",
@@ -315,8 +315,10 @@ def execute(plan, pristine, deep=False):
                     probes["apply_on_manager"] += 1
                 if need:
                     probes["apply_with_navigation"] += 1
-                if T.uses(t, "coll"):
+                if T.uses(t, "coll") or T.uses(t, "coll2"):
                     probes["apply_with_lambda"] += 1
+                if T.uses(t, "coll2"):
+                    probes["apply_with_two_step_lambda_owner"] += 1
                 if T.uses(t, "fn"):
                     probes["apply_with_function"] += 1
                 if base.qid in failed_on:
@@ -554,7 +556,7 @@ def gen_plan(seed, run, finding_shapes=True):
 
     def new():
         style = rng.choice(styles)
-        root = rng.choice(["Post", "Comment", "Author", "Post", "Comment"])
+        root = rng.choice(["Post", "Comment", "Author", "Post", "Comment", "Author"])
         i = nid()
         op = {"i": i, "op": "new", "style": style, "root": root}
         if style == "dj_custom_manager":
@@ -658,6 +660,25 @@ def gen_plan(seed, run, finding_shapes=True):
         elif r < 0.72:
             # apply a filter; sometimes the previous template again with other literals
             t = None
+            if last_template and rng.random() < 0.15:
+                # the identical filter text again, on another base query of the same
+                # model: what a per-(model, text) cache inside the library needs
+                same = [x for x in gs if x.root == last_template[0] and x.i != last_template[2].i
+                        and x.style.startswith("dj") == last_template[2].style.startswith("dj")
+                        and (x.style == "sa_core") == (last_template[2].style == "sa_core")]
+                cand = last_template[1]
+                if same and (not T.uses(cand, "ann")):
+                    g2 = rng.choice(same)
+                    newp = set()
+                    for pth in T.nav_paths(cand):
+                        for n in range(1, len(pth) + 1):
+                            newp.add(tuple(pth[:n]))
+                    if _path_ok(g2.root, g2.paths, newp):
+                        i = nid()
+                        ops.append({"i": i, "op": "apply", "base": g2.i, "t": cand})
+                        gs.append(g2.derive(i, depth=g2.depth + 1, paths=g2.paths | newp,
+                                            applied=g2.applied + 1))
+                        continue
             if last_template and rng.random() < 0.3:
                 # the same statement shape again with other literal values - on the very
                 # same base query, so that the compiled-statement cache can hit
@@ -673,13 +694,15 @@ def gen_plan(seed, run, finding_shapes=True):
                     t = None
                 if t and T.uses(t, "coll") and core:
                     t = None
+                if t and T.uses(t, "coll2") and not dj:
+                    t = None
             for _ in range(6):
                 if t is not None:
                     break
                 cand = T.gen_template(rng, g.root, allow_nav=not core, allow_coll=not core,
                                       want_nav=bool(g.joins) and rng.random() < 0.6,
                                       annotated=g.annotated and dj, allow_all=not dj,
-                                      allow_fn=True)
+                                      allow_fn=True, allow_coll2=dj)
                 if _path_ok(g.root, g.paths, T.nav_paths(cand)):
                     t = cand
             if t is None:
@@ -1091,7 +1114,7 @@ SYS_STYLES = ["sa_select", "sa_select_aliased", "sa_legacy", "sa_core", "dj_qs",
               "dj_custom_manager", "dj_related_manager"]
 SYS_SHAPES = ["plain", "where", "order", "join_rel", "join_outer", "join_target_on",
               "join_joinedload", "join_other", "annotated", "distinct", "chained"]
-SYS_FILTERS = ["scalar", "fn", "nav1", "nav2", "any", "all", "any0"]
+SYS_FILTERS = ["scalar", "fn", "nav1", "nav2", "any", "all", "any0", "any2"]
 
 
 def _sys_template(kind, root, variant):
@@ -1112,6 +1135,11 @@ def _sys_template(kind, root, variant):
         if root != "Comment":
             return None
         return {"k": "nav", "path": ["post", "author"], "f": "name", "op": "eq", "v": ["ann", "bob"][v]}
+    if kind == "any2":
+        if root != "Author":
+            return None
+        return {"k": "coll2", "rels": ["posts", "comments"], "q": "any",
+                "a": {"k": "cmp", "f": "id", "op": "ge", "v": 2 + v}}
     rel = {"Author": "posts", "Post": "comments"}.get(root)
     if rel is None:
         return None
@@ -1129,10 +1157,12 @@ def _sys_history(style, root, shape, fkind):
     t2 = _sys_template(fkind, root, 1)
     if t is None:
         return None
-    if core and fkind in ("nav1", "nav2", "any", "all", "any0"):
+    if core and fkind in ("nav1", "nav2", "any", "all", "any0", "any2"):
         return None
     if dj and fkind == "all":
         return None
+    if not dj and fkind == "any2":
+        return None      # the ORM backend joins the to-many owner path: row multiplicity
     ops = []
     n = [0]
 
@@ -1198,7 +1228,10 @@ def _sys_history(style, root, shape, fkind):
     add({"op": "apply_fail", "base": base, "bad": dict(BAD_FILTERS[4])})
     r2 = add({"op": "apply", "base": base, "t": t2})
     r3 = add({"op": "apply", "base": r1, "t": t2})
-    for q in (r2, r3, r1, base):
+    # the identical filter once more, on a plain base of the same style and model
+    plain = add(dict(new))
+    r4 = add({"op": "apply", "base": plain, "t": t})
+    for q in (r2, r3, r4, r1, base):
         add({"op": "run", "base": q})
     return ops
 
@@ -1207,8 +1240,8 @@ def systematic_jobs(seed, tier):
     nsl = 16
     if tier == "thorough":
         return [{"slice": s, "nslices": nsl, "take": 1} for s in range(nsl)]
-    # quick: one configuration in four, which quarter depends on the seed
-    return [{"slice": s, "nslices": nsl, "take": 4, "offset": seed % 4} for s in range(nsl)]
+    # quick: the whole product too, with one cache size instead of two
+    return [{"slice": s, "nslices": nsl, "take": 1, "caches": [2]} for s in range(nsl)]
 
 
 def systematic_plans(seed, spec):
@@ -1224,7 +1257,7 @@ def systematic_plans(seed, spec):
             continue
         if spec.get("take", 1) > 1 and (idx // spec["nslices"]) % spec["take"] != spec.get("offset", 0):
             continue
-        for cache in ((2, 500) if spec.get("take", 1) == 1 else (2,)):
+        for cache in spec.get("caches", (2, 500)):
             label = "sys-%s-%s-%s-%s-c%d" % (st, ro, sh, fk, cache)
             yield (label, {"property": "C15", "seed": seed, "run": label, "cache_size": cache,
                            "data": SYS_DATA, "ops": [dict(o) for o in ops]})
